@@ -236,14 +236,18 @@ pub fn diagnostic_info(rng: &mut Rng, depth: u32) -> DiagnosticInfo {
     }
 }
 
+/// Picoseconds are only generated together with their timestamp: Part 6 says they are ignored
+/// otherwise, so a value carrying them alone is not a valid value to round trip.
 pub fn data_value(rng: &mut Rng, depth: u32) -> DataValue {
+    let source_timestamp = if rng.bool() { Some(date_time(rng)) } else { None };
+    let server_timestamp = if rng.bool() { Some(date_time(rng)) } else { None };
     DataValue {
         value: if rng.chance(3, 4) { Some(variant(rng, depth)) } else { None },
         status: if rng.bool() { Some(status_code(rng)) } else { None },
-        source_timestamp: if rng.bool() { Some(date_time(rng)) } else { None },
-        source_picoseconds: if rng.bool() { Some(rng.next_u32() as u16) } else { None },
-        server_timestamp: if rng.bool() { Some(date_time(rng)) } else { None },
-        server_picoseconds: if rng.bool() { Some(rng.next_u32() as u16) } else { None },
+        source_picoseconds: if source_timestamp.is_some() && rng.bool() { Some(rng.next_u32() as u16) } else { None },
+        source_timestamp,
+        server_picoseconds: if server_timestamp.is_some() && rng.bool() { Some(rng.next_u32() as u16) } else { None },
+        server_timestamp,
     }
 }
 
@@ -442,21 +446,26 @@ impl Read for BiasedReader {
         let rng = &mut self.rng;
         match buf.len() {
             1 => {
-                buf[0] = match rng.below(10) {
-                    0..=5 => rng.below(26) as u8,
-                    6 => rng.below(64) as u8,
-                    7 => 0x80 | rng.below(26) as u8,
-                    8 => 0xC0 | rng.below(26) as u8,
+                // encoding bytes: NodeId kinds 0..5, ExtensionObject 0..2, masks, variant type ids
+                buf[0] = match rng.below(20) {
+                    0..=8 => rng.below(3) as u8,
+                    9..=11 => rng.below(6) as u8,
+                    12..=14 => rng.below(26) as u8,
+                    15 => rng.below(64) as u8,
+                    16 => 0x80 | rng.below(26) as u8,
+                    17 => 0xC0 | rng.below(26) as u8,
+                    18 => rng.below(128) as u8,
                     _ => rng.next_u32() as u8,
                 };
             }
             4 => {
-                let v: i32 = match rng.below(10) {
-                    0 => -1,
-                    1 => 0,
-                    2..=6 => rng.below(4) as i32,
-                    7 => rng.below(20) as i32,
-                    8 => rng.below(1000) as i32,
+                let v: i32 = match rng.below(40) {
+                    0..=5 => -1,
+                    6..=9 => 0,
+                    10..=29 => rng.below(4) as i32,
+                    30..=34 => rng.below(20) as i32,
+                    35..=37 => rng.below(1000) as i32,
+                    38 => (rng.next_u32() >> 8) as i32,
                     _ => rng.next_u32() as i32,
                 };
                 buf.copy_from_slice(&v.to_le_bytes());
